@@ -93,6 +93,23 @@ func Total(args []string) {
 			ms = append(ms, frontarea.Model{Text: text, Tag: "two-part-variant", Query: q})
 		}
 	}
+	// every corpus query once more with one trailing modifier taken away: guards that assume "this shape always has a LIMIT"
+	dropRes := []*regexp.Regexp{regexp.MustCompile(`(?i)\s+limit\s+\S+`), regexp.MustCompile(`(?i)\s+skip\s+\S+`), regexp.MustCompile(`(?i)\bdistinct\s+`),
+		regexp.MustCompile(`(?i)\s+order\s+by\s+[^;]*?(\s+(?:skip|limit)\b|$)`), regexp.MustCompile(`(?i)\s+desc(?:ending)?\b`)}
+	seenVariant := map[string]bool{}
+	for _, m := range append([]frontarea.Model{}, ms...) {
+		for ri, re := range dropRes {
+			text := re.ReplaceAllString(m.Text, map[bool]string{true: "$1", false: " "}[ri == 3])
+			text = strings.TrimSpace(strings.Join(strings.Fields(text), " "))
+			if text == strings.Join(strings.Fields(m.Text), " ") || seenVariant[text] {
+				continue
+			}
+			seenVariant[text] = true
+			if q, err := frontend.ParseCypher(frontend.NewContext(), text); err == nil {
+				ms = append(ms, frontarea.Model{Text: text, Tag: "modifier-dropped", Query: q})
+			}
+		}
+	}
 	// several items wherever the translator keeps items in a map or a set
 	for _, text := range []string{"match (n) remove n.alpha, n.beta, n.gamma, n.delta return n", "match (n) set n.a = 1, n.b = 2, n.c = 3, n.d = 4, n.e = 5 return n",
 		"match (n) set n:A:B:K:K0 return n", "match (n) remove n:A:B:K return n", "match (n) set n:A, n.x = 1 remove n:B, n.y, n.z return n",
